@@ -75,7 +75,7 @@ class Abs16Relocation(Relocation):
     field = "srcimm"
 
     def calc(self, sym_value, reloc_value):
-        assert sym_value % 2 == 0
+        # Byte operands may live at odd addresses.
         return sym_value
 
 
